@@ -6,7 +6,7 @@ tools/eval_seed.py <seed-id> [--from /tmp/wt/<wid>]   confirm a seeded change an
  3. git -C /repo apply patch; run all checks (evidence redirected); git -C /repo checkout -- .
  4. write meta.json
 """
-import json, os, shutil, subprocess, sys, tempfile, xml.etree.ElementTree as ET
+import json, os, re, shutil, subprocess, sys, tempfile, xml.etree.ElementTree as ET
 
 VERIF = os.path.dirname(os.path.dirname(os.path.abspath(__file__)))
 PROPS = ['C01', 'C02', 'C03', 'C04', 'C05', 'C06', 'C07', 'C08', 'C09', 'C10', 'C11', 'C12', 'C13', 'C14', 'C15', 'C17', 'C18', 'C19', 'C20']
@@ -26,6 +26,11 @@ def main():
             p = os.path.join(src, '_seed', fn)
             if os.path.exists(p):
                 shutil.copy(p, os.path.join(d, fn))
+        # helper modules the demonstration imports (e.g. a Python port of a .pyx) belong to the demonstration
+        for fn in sorted(os.listdir(os.path.join(src, '_seed'))):
+            if fn.endswith('.py') and fn != 'demo.py' and os.path.getsize(os.path.join(src, '_seed', fn)) < 200000:
+                if re.search(r'\b(import|from)\s+' + re.escape(fn[:-3]) + r'\b', open(os.path.join(src, '_seed', 'demo.py')).read()):
+                    shutil.copy(os.path.join(src, '_seed', fn), os.path.join(d, fn))
         # regenerate the patch from the worktree to be sure it is what is applied there
         r = sh(f'git -C {src} diff -- chython')
         if r.stdout.strip():
@@ -42,6 +47,9 @@ def main():
         demo_src = open(demo).read().replace('/tmp/wt/' + (os.path.basename(src) if src else sid), wt)
         os.makedirs(os.path.join(wt, '_seed'), exist_ok=True)
         open(os.path.join(wt, '_seed', '_demo.py'), 'w').write(demo_src)
+        for fn in os.listdir(d):
+            if fn.endswith('.py') and fn != 'demo.py':
+                shutil.copy(os.path.join(d, fn), os.path.join(wt, '_seed', fn))
         r0 = subprocess.run(['/venv/bin/python', '_seed/_demo.py'], cwd=wt, env=env, capture_output=True, text=True, timeout=600)
         meta['demo_unmodified_exit'] = r0.returncode
         a = sh(f'git -C {wt} apply {patch}')
